@@ -34,7 +34,8 @@ GL_FLAGS = [('GE', G.GLOBSTAR | G.EXTGLOB), ('G', G.GLOBSTAR), ('GENS', G.GLOBST
             ('GEW', G.GLOBSTAR | G.EXTGLOB | G.FORCEWIN), ('LEX', G.GLOBSTARLONG | G.EXTGLOB | G.MATCHBASE),
             ('GEOK', G.GLOBSTAR | G.EXTGLOB | G.NODIR), ('GEP', G.GLOBSTAR | G.EXTGLOB | G.REALPATH),
             ('GET', G.GLOBSTAR | G.EXTGLOB | G.GLOBTILDE), ('GER', G.GLOBSTAR | G.EXTGLOB | G.RAWCHARS),
-            ('GEWC', G.GLOBSTAR | G.EXTGLOB | G.FORCEWIN | G.CASE)]
+            ('GEWC', G.GLOBSTAR | G.EXTGLOB | G.FORCEWIN | G.CASE),
+            ('GENP', G.GLOBSTAR | G.EXTGLOB | G.NEGATE | G.REALPATH)]
 
 
 def enc(x, b):
